@@ -26,9 +26,9 @@ THEOREM_NOTES = {
     "C14_rs_nd_*": "d-dimensional Rosenberg-Strong: both directions for every dimension d >= 1; iroot is the exact integer root (the repaired code corrects its float guess to it; C14_iroot_unique)",
     "C14_sm_*": "StatesManager.project_index_to_state_increment as a state machine: over increasing indices without reset it returns exactly the in-grid indices <= max frontier, each once, then exhaustion for ever; the random frontier draw on exhaustion is not modelled",
     "C14_sm_complete_*": "ONE theorem per enumeration (1-d PairingToZ1d; d >= 2 nested Szudzik, d = 2 being the factory's; d >= 2 Rosenberg-Strong): with max_frontier_indices computed by the model of Domain/StatesManager.__init__, the increasing drive returns every in-grid, in-domain, non-origin state exactly once, then exhaustion; the domain is an arbitrary predicate on state increments; origin index 0 <= o < last axis size is assumed only by the frontier entry all_states[o], not by the theorems",
-    "C14_sm_reset_refuted": "finding F-C14-6 (root cause of F-C02-7): after a skipped index a reset (x == max_logged) re-enumerates from the index x; C14_sm_step_char characterises every call exactly, C14_sm_increasing_with_resets / C14_sm_all_admissible_resets are the positive statements (a reset is harmless when no index below it was skipped)",
+    "C14_sm_protocol": "repaired method (fix a459753: a restart resumes after the last LOGGED state; state = (_last_projected_index, _last_logged_index)): under InversionMethod's protocol (x = rank of the requested admissible state, max_logged = M >= 1, restarts at rank M once M states are stored, repeats after exhaustion) the call with rank x returns the x-th admissible index for EVERY enumeration; C14_sm_step_char characterises every call exactly; the unrepaired method was refuted (F-C14-6, root cause of F-C02-7: 0,2,2,3 instead of 0,2,3,exhaustion on the witness of Example sm_restart_nonvacuous)",
     "C14_zdn*": "PairingToZd for every dimension over Rosenberg-Strong (d >= 1) and nested Szudzik (d >= 2), omit_zero True and False, both directions; C14_nested_* hold for ANY 2-d bijection (Cantor.projection raises for dim != 2 in the code)",
-    "C14_a_n_divisor_summatory": "a_n with the integer square root (the repaired code, fix 21d4376 on branch fix-c14x; finding F-C14-7 for the float sqrt) equals sum_{k<=n} floor(n/k); HyperbolicPairing itself (factorisation, float root finder) stays oracle-only",
+    "C14_a_n_divisor_summatory": "a_n with the integer square root (the repaired code, fix 21d4376; finding F-C14-7 for the float sqrt) equals sum_{k<=n} floor(n/k); HyperbolicPairing itself (factorisation, float root finder) stays oracle-only",
     "C14_pepis_kalmar_*": "pk_pairing2d is generated from the source; pk_projection2d (recursive _aux_k/_aux_j) is the hand model of Model/Pairing.v, tied by correspondence",
 }
 
@@ -244,14 +244,14 @@ def correspond(res):
     # StatesManager over increasing indices (1-d, 2-d, 3-d grids; centred or not) and as a state machine
     _states_manager(res, rng, viol, groups)
     _states_manager_machine(res, rng, groups)
-    _reset_history(res, viol)
+    _reset_history(res, rng, viol)
     _nested_and_zdn(res, rng, viol, groups)
     _a_n(res, rng, viol, groups)
 
     # ---------- Coq side: the model must compute exactly what the implementation returned -----
     header = ("From Coq Require Import ZArith List Bool.\nFrom RV Require Import Gen.GenPairing Model.Pairing Model.StatesManager Model.Domain Proofs.C14_StatesManager.\nOpen Scope Z_scope.\n"
-              "Fixpoint sm_lasts (o : Z -> bool) (maxf last : Z) (cs : list (Z*Z)) : list Z := match cs with nil => nil | c :: r => "
-              "let s := sm_step Z (fun i => i) o maxf last (fst c) (snd c) in snd s :: sm_lasts o maxf (snd s) r end.")
+              "Fixpoint sm_lasts (o : Z -> bool) (maxf : Z) (st : Z * Z) (cs : list (Z*Z)) : list (Z * Z) := match cs with nil => nil | c :: r => "
+              "let s := sm_step Z (fun i => i) o maxf st (fst c) (snd c) in snd s :: sm_lasts o maxf (snd s) r end.")
     res.case_lemmas += len(groups)
     bad = coq_bad_indices(PROP, "cases", header, groups, timeout=900)
     for g, ty, chk, cases in groups:
@@ -346,7 +346,7 @@ def _a_n(res, rng, viol, groups):
         res.count(("a_n-big", n), kind="a_n near 2^52")
         if v != want:
             viol("a_n(n) is not the divisor summatory function for n = m^2 - 1 above 2^52 (floating-point sqrt rounds up to m)",
-                 kind="a_n", finding="F-C14-7", n=n, m=m, got=v, expected=want)
+                 kind="a_n", n=n, m=m, got=v, expected=want)
 
 
 def _enumerate(sm, limit=200000):
@@ -462,42 +462,50 @@ def _states_manager(res, rng, viol, groups):
                     for tag, sizes, o, outs, msi, fr, states in n_d]))
 
 
-def _reset_history(res, viol):
-    """finding F-C14-6 on the implementation: a history x = 0,1,2,... with max_logged = K (what InversionMethod passes with
-    _max_storage = K) on an off-centre 2-d grid, where indices are skipped before call K"""
+def _reset_history(res, rng, viol):
+    """restarts on the implementation (real Domain/StatesManager objects), InversionMethod's protocol: x is the rank of the
+    requested admissible state, max_logged = M; ranks 0..M-1 are requested once, then samples restart at rank M any number
+    of times.  The call with rank x must return the x-th state of the plain enumeration (no state twice, none lost),
+    whatever indices were skipped before (F-C14-6 / F-C02-7 on the unrepaired method)."""
     import numpy as np
     from rpylib.distribution import pairing as P
     from rpylib.grid.spatial import CTMCGrid
-    sizes, o, K = [5, 5], 1, 16
-    axes = [np.array([float(k) for k in range(-o, n - o)]) for n in sizes]
-    grid = CTMCGrid(h=1.0, origin_coordinate=o, axes=axes)
-    pairing = P.PairingToZd(pairing=P.Szudzik(), dimension=2)
-    dom = P.Domain(boundary=P.Boundary(), grid=grid, pairing=pairing)
-    sm = P.StatesManager(pairing=pairing, domain=dom, grid=grid)
-    got, x = [], 0
-    while x < 1000:
-        s, done = sm.project_index_to_state_increment(x, K)
-        if done:
-            break
-        got.append(tuple(int(v) for v in s))
-        x += 1
-    res.count(("sm-reset", tuple(sizes), o, K), kind="StatesManager reset history")
-    dups = sorted({s for s in got if got.count(s) > 1})
-    if dups:
-        viol("StatesManager: a reset (x == max_logged) after skipped indices returns states a second time",
-             kind="sm-reset", finding="F-C14-6", sizes=sizes, origin=o, pairing="szudzik", max_logged=K, n_returned=len(got),
-             n_states=len(set(got)), duplicates=[list(d) for d in dups[:12]], first_duplicate_call=next(k for k, s in enumerate(got) if s in got[:k]))
+
+    def build(dim, sizes, o, pname):
+        axes = [np.array([float(k) for k in range(-o, n - o)]) for n in sizes]
+        grid = CTMCGrid(h=1.0, origin_coordinate=o, axes=axes)
+        pairing = P.PairingToZd(pairing=P.Szudzik() if pname == "szudzik" else P.RosenbergStrong(), dimension=dim)
+        dom = P.Domain(boundary=P.Boundary(), grid=grid, pairing=pairing)
+        return P.StatesManager(pairing=pairing, domain=dom, grid=grid)
+
+    for dim, sizes, o in [(2, [5, 5], 1), (2, [5, 5], 2), (2, [4, 6], 1), (2, [7, 7], 4), (3, [3, 3, 3], 1), (3, [4, 3, 5], 1)]:
+        for pname in ("szudzik", "rs"):
+            order = _enumerate(build(dim, sizes, o, pname))
+            K = len(order)
+            for M in sorted({1, 2, 3, 16, K - 1, K, K + 2, rng.randint(2, K)}):
+                if M < 1:
+                    continue
+                sm = build(dim, sizes, o, pname)
+                calls = [(0, -1)] + [(x, M) for x in range(1, min(M, K + 1))]      # __init__ call, then the logged ranks
+                if M <= K:
+                    for _ in range(4):                                                # samples after the storage is full
+                        calls += [(x, M) for x in range(M, rng.randint(M, K + 1) + 1)]
+                got = []
+                for x, ml in calls:
+                    s, done = sm.project_index_to_state_increment(x, ml)
+                    got.append(None if done else tuple(int(v) for v in s))
+                want = [order[x] if x < K else None for x, _ in calls]
+                res.count(("sm-restart", dim, tuple(sizes), o, pname, M), kind="StatesManager restart protocol")
+                res.bump("sm_restart_storage", "M<=K" if M <= K else "M>K")
+                if got != want:
+                    k = next(k for k in range(len(calls)) if got[k] != want[k])
+                    viol("StatesManager: after a restart (x == max_logged) the call with rank x does not return the x-th admissible state",
+                         kind="sm-reset", dim=dim, sizes=sizes, origin=o, pairing=pname, max_logged=M, n_states=K, first_bad_call=k,
+                         rank=calls[k][0], got=None if got[k] is None else list(got[k]), expected=None if want[k] is None else list(want[k]))
 
 
 def matches_known(v, known):
-    """F-C14-6 only absorbs the reset-history violation itself: duplicates that start exactly at the reset call"""
-    r = v["replay"]
-    if known["id"] == "F-C14-6":
-        return r.get("kind") == "sm-reset" and r.get("first_duplicate_call") == r.get("max_logged") and bool(r.get("duplicates"))
-    if known["id"] == "F-C14-7":   # float sqrt in a_n: only n = m^2 - 1 above 2^52, off by exactly one
-        import math
-        n = r.get("n", 0)
-        return r.get("kind") == "a_n" and n >= 2 ** 52 and math.isqrt(n + 1) ** 2 == n + 1 and r.get("expected", 0) - r.get("got", 0) == 1
+    """no known finding is left for C14 (F-C14-6 and F-C14-7 are fixed): a tag absorbs nothing"""
     return False
 
 
@@ -512,6 +520,7 @@ def _states_manager_machine(res, rng, groups):
         sm = object.__new__(StatesManager)
         sm.max_frontier_indices = maxf
         sm._last_projected_index = -1
+        sm._last_logged_index = -1
 
         class _P:
             @staticmethod
@@ -522,28 +531,35 @@ def _states_manager_machine(res, rng, groups):
         sm._sample_frontier_state_increment = lambda: None
         calls, rets, lasts = [], [], []
         x = 0
+        fixed_m = rng.choice([None, None, rng.randint(1, 8)])
         for k in range(rng.randint(1, 25)):
             if rng.random() < 0.6:
                 xx = x
                 x += 1
+            elif fixed_m is not None and rng.random() < 0.5:
+                xx = x = fixed_m          # restart of a sample at rank M
+                x += 1
             else:
                 xx = rng.randint(0, 18)
-            ml = xx if rng.random() < 0.15 else rng.choice([-1, 1000, xx + 1])
+            if fixed_m is not None:
+                ml = fixed_m
+            else:
+                ml = xx if rng.random() < 0.15 else rng.choice([-1, 1000, xx + 1])
             st, brk = sm.project_index_to_state_increment(xx, ml)
             calls.append((xx, ml))
             rets.append(None if brk else int(st))
-            lasts.append(int(sm._last_projected_index))
+            lasts.append((int(sm._last_projected_index), int(sm._last_logged_index)))
         res.count(("smm", maxf, tuple(outs), tuple(calls)), kind="StatesManager state machine")
         res.bump("sm_history_len", len(calls) // 5 * 5)
         cases.append((maxf, outs, calls, rets, lasts))
     lits = []
     for maxf, outs, calls, rets, lasts in cases:
         lits.append("(" + ", ".join([zlit(maxf), lst([zlit(i) for i in outs]), lst([f"({zlit(a)}, {zlit(b)})" for a, b in calls]),
-                                     lst(["None" if r is None else f"(Some {zlit(r)})" for r in rets]), lst([zlit(l) for l in lasts])]) + ")")
-    groups.append(("smm", "Z * list Z * list (Z * Z) * list (option Z) * list Z",
+                                     lst(["None" if r is None else f"(Some {zlit(r)})" for r in rets]), lst([f"({zlit(a)}, {zlit(b)})" for a, b in lasts])]) + ")")
+    groups.append(("smm", "Z * list Z * list (Z * Z) * list (option Z) * list (Z * Z)",
                    "fun c => match c with (maxf, outs, calls, rets, lasts) => "
-                   "list_eqb (option_eqb Z.eqb) (sm_run_index Z (fun i => i) (fun i => existsb (Z.eqb i) outs) maxf (-1) calls) rets "
-                   "&& zlist_eqb (sm_lasts (fun i => existsb (Z.eqb i) outs) maxf (-1) calls) lasts end", lits))
+                   "list_eqb (option_eqb Z.eqb) (sm_run_index Z (fun i => i) (fun i => existsb (Z.eqb i) outs) maxf sm_init calls) rets "
+                   "&& list_eqb zpair_eqb (sm_lasts (fun i => existsb (Z.eqb i) outs) maxf sm_init calls) lasts end", lits))
 
 
 def replay(path):
@@ -568,9 +584,10 @@ def replay(path):
         class _R:
             tier = "quick"
             def count(self, *a, **kw): pass
+            def bump(self, *a, **kw): pass
         hits = []
-        _reset_history(_R(), lambda what, **kw: hits.append((what, kw)))
-        print("reset history:", hits[0][1] if hits else "no state returned twice")
+        _reset_history(_R(), random.Random(0), lambda what, **kw: hits.append((what, kw)))
+        print("restart protocol:", hits[0][1] if hits else "every call with rank x returned the x-th admissible state")
         return 1 if hits else 0
     print("replay: re-run ./check C14 to re-evaluate this class of input")
     return 1
@@ -583,8 +600,9 @@ LEVEL_TEXT = ("Proof: 53 Coq theorems (closed under the global context, no axiom
               "Admissible-state enumeration: Domain's max_state_index / StatesManager.max_frontier_indices bound the index of every in-grid "
               "in-domain state (any domain predicate, any box and origin), and composed with the bijections and the state machine of "
               "project_index_to_state_increment this gives ONE theorem per enumeration (1-d, d-dim Szudzik, d-dim Rosenberg-Strong): the "
-              "increasing drive returns each in-grid, in-domain, non-origin state exactly once, then exhaustion. Reset histories are "
-              "characterised exactly (refuted in general: finding F-C14-6; proved harmless when nothing was skipped). a_n is proved equal "
+              "increasing drive returns each in-grid, in-domain, non-origin state exactly once, then exhaustion. Restarts (x == max_logged, "
+              "the repaired method) are proved harmless for every enumeration under InversionMethod's protocol: the call with rank x "
+              "returns the x-th admissible index. a_n is proved equal "
               "to the divisor summatory function. Straight-line functions are re-translated from /repo by py2coq on every run; loops/classes "
               "are hand-modelled and compared with the implementation by vm_compute on ~25k boundary and random cases, including real "
               "Domain/StatesManager objects (max_state_index, frontier deque, whole enumeration) under non-trivial boundaries. Partial: the "
